@@ -1353,6 +1353,11 @@ def _cse_locals(fn: ast.AST, keep: set[str] | None = None) -> bool:
             for sa in dom:
                 if _stores(sa) & reads:
                     break
+                # an in-place tensor method (`x.transpose_(…)`) or any call that receives a name E reads may change what E denotes
+                if any(isinstance(z, ast.Call) and any(isinstance(w, ast.Name) and w.id in reads for w in ast.walk(z))
+                       and not (isinstance(z.func, ast.Attribute) and z.func.attr in ('size', 'dim', 'numel', 'nelement', 'element_size')) for z in ast.walk(sa)
+                       if not (isinstance(sa, ast.Assign) and ast.dump(sa.value) == dump_b)):
+                    break
                 if isinstance(sa, ast.Assign) and len(sa.targets) == 1 and isinstance(sa.targets[0], ast.Name) and sa.targets[0].id != b and ast.dump(sa.value) == dump_b:
                     a = sa.targets[0].id
                     if nstores.get(a) != 1:
